@@ -139,7 +139,7 @@ Fixpoint find_best_stream_from (fuel : nat) (cfg : config) (env : repair_env) (t
             if streaming_from_it then Ret sf
             else
               match assoc sf (re_state env) with
-              | None => Panic 2051                         (* clusterState[streamFrom] is nil and dereferenced *)
+              | None => Ret (re_master env)                (* a source that is not registered: fall back to the master *)
               | Some cand =>
                   let reasonable := ns_is_master cand ||
                     (ns_repl_running cand && match slave_lag_of cand with Some l => l <? c_stream_from_reasonable_lag cfg | None => false end) in
